@@ -11,7 +11,7 @@ Extraction "model.ml"
   c15_np_pred
   quote_n unquote_n
   run_observe run_compare split_url split_netloc
-  c10_pred c10_trans_pred c17_ctor_pred c17_lazy_pred c17_set_pred c07_enc_pred c07_auto_pred
+  c10_pred c10_trans_pred c17_ctor_pred c17_lazy_pred c17_set_pred c07_enc_pred c07_auto_pred c07_derived_pred
   c19_pred c09_pred kf_f7 c01_pred kf_f20 kf_f22 kf_f26 c03_pred kf_f14 kf_f15 kf_f17_with kf_empty_authority
   c16_pred c16_reject_pred c16_nfkc_pred c16_reencode_pred
   c01_quote_pred c03_quote_pred c04_quote_pred c05_quote_pred canon_n kf_f1b_str c04_url_pred kf_f14b kf_f27 c19_oom_pred c11_pred kf_f7_base c13_pred kf_f28 c14_pred kf_f19 c12_pred kf_f29 c06_pred kf_f18 pct_decode c02_pred kf_f1b_c02 c18_pred kf_f13 c08_pred c08_cmp_pred c15_url_pred kf_f23 kf_f30 f17_input f30_input f17_observed kf_f31.
